@@ -192,6 +192,10 @@ type StoredSpec struct {
 	IsShrt bool    `json:"is_short,omitempty"`
 	Mask   uint32  `json:"mask"`
 	Val    ValSpec `json:"val"`
+	// KeepTime: the foreign store leaves the file's modification time where it was (coarse timestamps, two stores within
+	// one tick, a wall clock stepped back between them): what a handle remembers about the file's times says nothing about
+	// its content
+	KeepTime bool `json:"keep_time,omitempty"`
 }
 
 type fstraceEngine struct {
@@ -601,6 +605,20 @@ func (e *fstraceEngine) Gen(seed uint64, tier string, run int) *Trace {
 						st.Mask = req
 					}
 					op.Stored = st
+					st.KeepTime = r.Bool()
+					if !st.Absent && !st.IsShrt && c.cfg.Clients <= 1 && r.Chance(1, 3) {
+						// the same handle has read this variable just before, and what it read had the same length: the
+						// store in between is somebody else's (firmware, another handle, another tool)
+						prev := op
+						pst := *st
+						pst.Val.Tag ^= 1 + r.Intn(255)
+						pst.KeepTime = false
+						prev.Stored, prev.SinkFails = &pst, false
+						if r.Bool() {
+							prev.API = Pick(r, ftReadAPIs)
+						}
+						c.ops = append(c.ops, prev)
+					}
 				}
 				c.ops = append(c.ops, op)
 			}
@@ -1061,7 +1079,20 @@ func ftRead(x *X, i int, op ftOp, v efivar.Efivar, p string, obj *efivarfs.Efiva
 			afero.WriteFile(mem, p, le32(st.Mask)[:st.Short], 0o644)
 		default:
 			fw.vars[p] = &fwVar{Attrs: st.Mask, Data: st.Val.Bytes()}
+			// (the in-memory store's FileInfo is a live view of the file: take time and size out of it before the store)
+			var oldTime time.Time
+			oldSize := int64(-1)
+			if before, serr := mem.Stat(p); serr == nil {
+				oldTime, oldSize = before.ModTime(), before.Size()
+			}
 			afero.WriteFile(mem, p, append(le32(st.Mask), st.Val.Bytes()...), 0o644)
+			if st.KeepTime && oldSize >= 0 {
+				mem.Chtimes(p, oldTime, oldTime)
+				x.Probe("foreign_store_keeps_mtime")
+				if oldSize == int64(4+len(st.Val.Bytes())) {
+					x.Probe("foreign_store_same_length_same_mtime")
+				}
+			}
 		}
 	}
 	raw, rerr := afero.ReadFile(mem, p)
